@@ -57,6 +57,13 @@ type c19Case struct {
 	S3        string     `json:"s3"`         // healthy | degraded | unavailable
 	Acks      int16      `json:"acks"`
 	Req       []c19Topic `json:"req"`
+	// produce in flight while the lease state changes (the request then names ONE partition):
+	// the answer of the handler's successful acquire / reacquire transaction is held back,
+	// Mid ("expire" | "releaseall") is applied to the handler's manager, optionally the other
+	// broker acquires the partition, the handler goes on; Again = the same request once more
+	Mid      string `json:"mid,omitempty"`
+	MidOther bool   `json:"mid_other,omitempty"`
+	Again    bool   `json:"again,omitempty"`
 }
 
 type c19Res struct {
@@ -74,6 +81,11 @@ type c19Obs struct {
 	entered   [][]bool  // storage path entered for that (topic, partition) at all
 	owns      []bool    // handler's manager, per pool resource
 	ownsOther []bool
+	window    bool     // Mid case: the handler was held in the response window
+	midEvs    []string // the window as model events
+	code1     int16    // Mid case: code of the first response
+	code2     int16    // Mid case with Again: code of the second response
+	anyEnter  bool
 	holders   []int    // per pool resource: manager whose current incarnation's session lease the key hangs on, or -1
 	setupEvs  []string // the executed pre-state as model events
 	keys      []int    // per pool resource: -1 absent, else broker index of the stored id (or -2)
@@ -95,6 +107,7 @@ type c19World struct {
 	old       []*metadata.PartitionLeaseManager
 	granted   []clientv3.LeaseID
 	revoked   []int // lease numbers revoked by the setup op being executed
+	kv0       *c19KV
 }
 
 func (w *c19World) newMgr(b int) *metadata.PartitionLeaseManager {
@@ -105,8 +118,58 @@ func (w *c19World) newMgr(b int) *metadata.PartitionLeaseManager {
 	w.clients = append(w.clients, cli)
 	// every lease the managers' sessions are granted is recorded so that it can be expired / cleaned up
 	cli.Lease = &c19Lease{Lease: cli.Lease, w: w, b: b}
+	if b == 0 {
+		w.kv0 = &c19KV{KV: cli.KV, arrived: make(chan struct{}, 1), release: make(chan struct{}, 1)}
+		cli.KV = w.kv0
+	}
 	return metadata.NewPartitionLeaseManager(cli, metadata.PartitionLeaseConfig{
 		BrokerID: strconv.Itoa(b + 1), LeaseTTLSeconds: 120, Logger: slog.New(slog.NewTextHandler(io.Discard, nil))})
+}
+
+type c19HoldKey struct{}
+
+// c19KV can hold back the answer of a successful transaction (after etcd applied it) of a call
+// whose context carries c19HoldKey.
+type c19KV struct {
+	clientv3.KV
+	mu      sync.Mutex
+	hold    bool
+	arrived chan struct{}
+	release chan struct{}
+}
+
+func (k *c19KV) Txn(ctx context.Context) clientv3.Txn {
+	return &c19Txn{Txn: k.KV.Txn(ctx), kv: k, marked: ctx.Value(c19HoldKey{}) != nil}
+}
+
+type c19Txn struct {
+	clientv3.Txn
+	kv     *c19KV
+	marked bool
+}
+
+func (t *c19Txn) If(cs ...clientv3.Cmp) clientv3.Txn { t.Txn = t.Txn.If(cs...); return t }
+func (t *c19Txn) Then(ops ...clientv3.Op) clientv3.Txn {
+	t.Txn = t.Txn.Then(ops...)
+	return t
+}
+func (t *c19Txn) Else(ops ...clientv3.Op) clientv3.Txn {
+	t.Txn = t.Txn.Else(ops...)
+	return t
+}
+func (t *c19Txn) Commit() (*clientv3.TxnResponse, error) {
+	resp, err := t.Txn.Commit()
+	if t.marked && err == nil && resp.Succeeded {
+		t.kv.mu.Lock()
+		hold := t.kv.hold
+		t.kv.hold = false
+		t.kv.mu.Unlock()
+		if hold {
+			t.kv.arrived <- struct{}{}
+			<-t.kv.release
+		}
+	}
+	return resp, err
 }
 
 type c19Lease struct {
@@ -180,21 +243,9 @@ func (w *c19World) setup(op c19Setup) {
 		// the keep-alive stream learns about the revocation with the next keep-alive; closing the
 		// lessor ends it at once (Done() fires, monitorSession clears the ownership map)
 		_ = l.Lease.Close()
-		probe := c19Pool
-		deadline := time.Now().Add(10 * time.Second)
-		for {
-			any := false
-			for _, p := range probe {
-				if m.Owns(p.topic, p.part) {
-					any = true
-				}
-			}
-			if !any || time.Now().After(deadline) {
-				break
-			}
-			time.Sleep(time.Millisecond)
+		for deadline := time.Now().Add(10 * time.Second); m.VerifHasSession() && time.Now().Before(deadline); {
+			time.Sleep(200 * time.Microsecond)
 		}
-		time.Sleep(5 * time.Millisecond)
 		// the lessor is closed: this incarnation cannot open another session, so replace the
 		// client's lessor by a fresh one for later sessions
 		l.Lease = clientv3.NewLease(cli)
@@ -299,10 +350,11 @@ func c19Run(t *testing.T, endpoints []string, root *clientv3.Client, cs c19Case)
 		}
 	}
 
+	nextBase := map[string]int64{}
+	mkReq := func() *kmsg.ProduceRequest {
 	req := kmsg.NewPtrProduceRequest()
 	req.Acks = cs.Acks
 	req.TimeoutMillis = 1000
-	nextBase := map[string]int64{}
 	for _, tp := range cs.Req {
 		rt := kmsg.NewProduceRequestTopic()
 		rt.Topic = tp.Topic
@@ -320,18 +372,9 @@ func c19Run(t *testing.T, endpoints []string, root *clientv3.Client, cs c19Case)
 		}
 		req.Topics = append(req.Topics, rt)
 	}
-	ownedBefore := map[string]bool{} // by the other broker
-	for _, r := range c19Pool {
-		ownedBefore[r.rid()] = w.mgrs[1].Owns(r.topic, r.part)
+	return req
 	}
-	payload, err := h.Handle(ctx, &protocol.RequestHeader{APIKey: 0, APIVersion: 3, CorrelationID: 7}, req)
-	if err != nil {
-		t.Fatalf("Handle(produce): %v", err)
-	}
-
-	var o c19Obs
-	o.setupEvs = setupEvs
-	if payload != nil {
+	decode := func(payload []byte) [][]int16 {
 		resp := kmsg.NewPtrProduceResponse()
 		body, ok := protocol.SkipResponseHeader(resp.Key(), 3, payload)
 		if !ok {
@@ -341,13 +384,112 @@ func c19Run(t *testing.T, endpoints []string, root *clientv3.Client, cs c19Case)
 		if err := resp.ReadFrom(body); err != nil {
 			t.Fatalf("decode produce response: %v", err)
 		}
-		o.haveCodes = true
+		var codes [][]int16
 		for _, rt := range resp.Topics {
 			var row []int16
 			for _, rp := range rt.Partitions {
 				row = append(row, rp.ErrorCode)
 			}
-			o.codes = append(o.codes, row)
+			codes = append(codes, row)
+		}
+		return codes
+	}
+	ownedBefore := map[string]bool{} // by the other broker
+	for _, r := range c19Pool {
+		ownedBefore[r.rid()] = w.mgrs[1].Owns(r.topic, r.part)
+	}
+	var o c19Obs
+	o.setupEvs = setupEvs
+	fail, key := "", ""
+	setFail := func(k, f string) {
+		if fail == "" {
+			fail, key = f, k
+		}
+	}
+	hdr := &protocol.RequestHeader{APIKey: 0, APIVersion: 3, CorrelationID: 7}
+	var payload []byte
+	var err error
+	midIdx := -1
+	if cs.Mid != "" && len(cs.Req) == 1 && len(cs.Req[0].Parts) == 1 {
+		for i, r := range c19Pool {
+			if r.topic == cs.Req[0].Topic && r.part == cs.Req[0].Parts[0].Part {
+				midIdx = i
+			}
+		}
+	}
+	if midIdx >= 0 && cs.Leasing {
+		// the produce runs while the lease state changes under it
+		w.kv0.mu.Lock()
+		w.kv0.hold = true
+		w.kv0.mu.Unlock()
+		done := make(chan struct{})
+		go func() {
+			payload, err = h.Handle(context.WithValue(ctx, c19HoldKey{}, true), hdr, mkReq())
+			close(done)
+		}()
+		select {
+		case <-w.kv0.arrived:
+			o.window = true
+			ops := []c19Setup{{K: cs.Mid, B: 0, R: midIdx}}
+			if cs.MidOther {
+				ops = append(ops, c19Setup{K: "acquire", B: 1, R: midIdx})
+			}
+			for _, op := range ops {
+				w.revoked = nil
+				w.setup(op)
+				o.midEvs = append(o.midEvs, c19CoqSetup(op)...)
+				for _, n := range w.revoked {
+					o.midEvs = append(o.midEvs, "OrphanExpire "+cqZ(int64(n)))
+				}
+			}
+			w.kv0.release <- struct{}{}
+			<-done
+		case <-done:
+		}
+		w.kv0.mu.Lock()
+		w.kv0.hold = false
+		w.kv0.mu.Unlock()
+		if err != nil {
+			t.Fatalf("Handle(produce): %v", err)
+		}
+		if o.window {
+			// oracle on the in-flight produce: success only while holding the lease
+			r := c19Pool[midIdx]
+			first := decode(payload)
+			o.code1 = first[0][0]
+			owner, _ := w.mgrs[1].CurrentOwner(ctx, r.topic, r.part)
+			h.logMu.RLock()
+			_, entered := h.logs[r.topic][r.part]
+			h.logMu.RUnlock()
+			o.anyEnter = entered
+			held := w.mgrs[0].Owns(r.topic, r.part) && owner == "1" && !w.mgrs[1].Owns(r.topic, r.part)
+			if o.code1 == 0 && !held {
+				setFail("success-without-lease", fmt.Sprintf("produce to %s in flight while the manager's session was lost / ReleaseAll ran (%s, other broker acquires=%v): code 0 but this broker does not hold the lease (Owns=%v, etcd owner=%q, other broker Owns=%v)", r.rid(), cs.Mid, cs.MidOther, w.mgrs[0].Owns(r.topic, r.part), owner, w.mgrs[1].Owns(r.topic, r.part)))
+			}
+			if !held && entered {
+				setFail("write-without-lease", fmt.Sprintf("produce to %s in flight while the lease was lost (%s): the storage path was entered", r.rid(), cs.Mid))
+			}
+			if cs.Again {
+				for _, rr := range c19Pool {
+					ownedBefore[rr.rid()] = w.mgrs[1].Owns(rr.topic, rr.part)
+				}
+				payload, err = h.Handle(ctx, hdr, mkReq())
+				if err != nil {
+					t.Fatalf("Handle(produce): %v", err)
+				}
+			}
+		}
+	} else {
+		payload, err = h.Handle(ctx, hdr, mkReq())
+		if err != nil {
+			t.Fatalf("Handle(produce): %v", err)
+		}
+	}
+	if payload != nil {
+		o.haveCodes = true
+		o.codes = decode(payload)
+		if o.window && cs.Again {
+			o.code2 = o.codes[0][0]
 		}
 	}
 	objs, _ := s3.ListSegments(ctx, "")
@@ -408,12 +550,6 @@ func c19Run(t *testing.T, endpoints []string, root *clientv3.Client, cs c19Case)
 	}
 
 	// ---- implementation-side oracle: the clauses of C19, on what the real code did
-	fail, key := "", ""
-	setFail := func(k, f string) {
-		if fail == "" {
-			fail, key = f, k
-		}
-	}
 	poolIdx := func(topic string, part int32) int {
 		for i, r := range c19Pool {
 			if r.topic == topic && r.part == part {
@@ -580,6 +716,14 @@ func c19Corpus() []c19Case {
 			Req: []c19Topic{{Topic: "denied", Parts: ok(0, 1)}, {Topic: "orders", Parts: ok(1)}}},
 		{Leasing: true, EtcdAvail: true, S3: "healthy", Acks: 0, Setup: []c19Setup{{K: "acquire", B: 1, R: 0}},
 			Req: []c19Topic{{Topic: "orders", Parts: ok(0, 1)}}},
+		// produce in flight: the acquire transaction is applied, then the session is lost / the
+		// broker is shut down, the other broker takes the lease, then the handler sees the answer
+		{Leasing: true, EtcdAvail: true, S3: "healthy", Acks: -1, Mid: "expire", MidOther: true, Again: true,
+			Req: []c19Topic{{Topic: "orders", Parts: ok(0)}}},
+		{Leasing: true, EtcdAvail: true, S3: "healthy", Acks: -1, Mid: "releaseall", MidOther: true, Again: true,
+			Setup: []c19Setup{{K: "acquire", B: 0, R: 2}}, Req: []c19Topic{{Topic: "orders", Parts: ok(1)}}},
+		{Leasing: true, EtcdAvail: true, S3: "healthy", Acks: -1, Mid: "expire", MidOther: false, Again: true,
+			Setup: []c19Setup{{K: "acquire", B: 0, R: 0}, {K: "restart", B: 0}}, Req: []c19Topic{{Topic: "orders", Parts: ok(0)}}},
 		{Leasing: false, EtcdAvail: true, S3: "healthy", Acks: -1, Setup: []c19Setup{{K: "acquire", B: 1, R: 0}},
 			Req: []c19Topic{{Topic: "orders", Parts: ok(0, 1)}}},
 	}
@@ -660,6 +804,51 @@ func c19Coq(cs c19Case, o c19Obs) string {
 		cqBool(o.haveCodes), cqList(codes), cqList(entered), cqList(owns), cqList(ownsOther), cqList(keys), cqList(holders))
 }
 
+func c19CoqMid(cs c19Case, o c19Obs) string {
+	bp := int64(-1)
+	if cs.S3 == "degraded" {
+		bp = 7
+	}
+	env := fmt.Sprintf("(mkPEnv %s %s %s %s)", cqBool(cs.Leasing), cqBool(cs.EtcdAvail), cqBool(cs.S3 == "healthy"), cqZ(bp))
+	n := len(c19Pool)
+	pool, owns, ownsOther, keys, holders := make([]string, n), make([]string, n), make([]string, n), make([]string, n), make([]string, n)
+	for i, r := range c19Pool {
+		pool[i] = cqStr(r.rid())
+		owns[i] = cqBool(o.owns[i])
+		ownsOther[i] = cqBool(o.ownsOther[i])
+		keys[i] = cqZ(int64(o.keys[i]))
+		holders[i] = cqZ(int64(o.holders[i]))
+	}
+	return fmt.Sprintf("mkMCase %s %s %s %s %s %s %s %s %s %s %s %s %s %s", cqList(o.setupEvs), env, cqStr(cs.Req[0].Topic),
+		cqZ(int64(cs.Req[0].Parts[0].Part)), cqList(o.midEvs), cqBool(cs.Again), cqList(pool), cqZ(int64(o.code1)), cqZ(int64(o.code2)),
+		cqBool(o.entered[0][0] || o.anyEnter), cqList(owns), cqList(ownsOther), cqList(keys), cqList(holders))
+}
+
+// c19GenMid: one partition that needs an Acquire, the produce held in the response window of
+// its acquire / reacquire transaction while the manager loses its session or is shut down.
+func c19GenMid(r *vRand) c19Case {
+	cs := c19Case{Leasing: true, EtcdAvail: true, S3: "healthy", Acks: -1, Mid: "expire", MidOther: r.Chance(70), Again: r.Chance(70)}
+	if r.Chance(45) {
+		cs.Mid = "releaseall"
+	}
+	res := r.Intn(3)
+	for n := r.Range(0, 3); n > 0; n-- {
+		op := c19Setup{K: "acquire", B: r.Intn(2), R: r.Intn(3)}
+		if op.B == 0 && op.R == res {
+			op.R = (res + 1) % 3 // the handler must not own the partition yet; it may hold a session
+		}
+		cs.Setup = append(cs.Setup, op)
+	}
+	switch r.Intn(5) {
+	case 0: // the key of the handler's previous incarnation is still there: reacquire path
+		cs.Setup = append(cs.Setup, c19Setup{K: "acquire", B: 0, R: res}, c19Setup{K: "restart", B: 0})
+	case 1: // the other broker held it and lost its session
+		cs.Setup = append(cs.Setup, c19Setup{K: "acquire", B: 1, R: res}, c19Setup{K: "expire", B: 1})
+	}
+	cs.Req = []c19Topic{{Topic: c19Pool[res].topic, Parts: []c19Part{{Part: c19Pool[res].part, Valid: true}}}}
+	return cs
+}
+
 func TestVerifC19(t *testing.T) {
 	rep := vNewReport("C19", "generated produce requests (1-3 topic entries x 1-3 partition entries incl. duplicates, an ACL-denied topic, undecodable batches; acks -1/1/0) sent through the real handler whose PartitionLeaseManager shares an embedded etcd with a second broker, after a generated lease pre-state (0-7 acquire/release/expire/restart/ReleaseAll calls on both brokers); non-trivial = the request names at least one partition this broker ends up owning and at least one it does not; distinct = distinct cases")
 	endpoints := testutil.StartEmbeddedEtcd(t)
@@ -668,7 +857,7 @@ func TestVerifC19(t *testing.T) {
 		t.Fatalf("etcd client: %v", err)
 	}
 	defer root.Close()
-	var coq, jsons []string
+	var coq, jsons, coqMid, jsonsMid []string
 	runOne := func(cs c19Case) {
 		o, fail, key := c19Run(t, endpoints, root, cs)
 		canon, _ := json.Marshal(cs)
@@ -729,8 +918,14 @@ func TestVerifC19(t *testing.T) {
 			}
 			rep.Fail(key, key, f2, shr)
 		}
-		coq = append(coq, c19Coq(cs, o))
-		jsons = append(jsons, string(canon))
+		if o.window {
+			rep.Hist("mid:" + cs.Mid)
+			coqMid = append(coqMid, c19CoqMid(cs, o))
+			jsonsMid = append(jsonsMid, string(canon))
+		} else {
+			coq = append(coq, c19Coq(cs, o))
+			jsons = append(jsons, string(canon))
+		}
 	}
 	if rc := vReplayCase(); rc != nil {
 		var cs c19Case
@@ -745,10 +940,15 @@ func TestVerifC19(t *testing.T) {
 		r := vNewRand(vSeed())
 		n := vN(250, 2500)
 		for i := 0; i < n; i++ {
-			runOne(c19Gen(r.Fork()))
+			if i%5 == 4 {
+				runOne(c19GenMid(r.Fork()))
+			} else {
+				runOne(c19Gen(r.Fork()))
+			}
 		}
 	}
 	rep.Cases("C19", "From KS Require Import lib.Base lib.Strings lib.EtcdKV model.Lease corr.LeaseCorr.", "pcase", "check_pcase", coq, jsons)
+	rep.Cases("C19mid", "From KS Require Import lib.Base lib.Strings lib.EtcdKV model.Lease corr.LeaseCorr.", "mcase", "check_mcase", coqMid, jsonsMid)
 	rep.Write()
 	if len(rep.Failures) > 0 {
 		t.Logf("oracle failures: %s", strings.TrimSpace(rep.Failures[0].What))
